@@ -15,7 +15,7 @@ import (
 // ---- alphabet --------------------------------------------------------------------------------
 
 type sym struct {
-	K    byte   // 'H' headers, 'C' continuation, 'D' data, 'R' rst, 'W' window update, 'P' priority, 'p' ping, 's' settings, 'w' conn window update, 'u' unknown type
+	K    byte   // 'i' SETTINGS carrying INITIAL_WINDOW_SIZE (W: 1 = 66535, 2 = 2^31-1), 'H' headers (Self: with a priority section naming the stream itself), 'C' continuation, 'D' data, 'R' rst, 'W' window update, 'P' priority, 'p' ping, 's' settings, 'w' conn window update, 'u' unknown type
 	ID   uint32 // stream id
 	ES   bool
 	EH   bool
@@ -27,7 +27,12 @@ type sym struct {
 func (s sym) String() string {
 	switch s.K {
 	case 'H':
+		if s.Self {
+			return fmt.Sprintf("H%d[es=%v,eh=%v,priority-on-itself]", s.ID, s.ES, s.EH)
+		}
 		return fmt.Sprintf("H%d[es=%v,eh=%v]", s.ID, s.ES, s.EH)
+	case 'i':
+		return "SETTINGS[initial-window=" + []string{"", "66535", "2^31-1"}[s.W] + "]"
 	case 'C':
 		return fmt.Sprintf("C%d[eh=%v]", s.ID, s.EH)
 	case 'M':
@@ -97,6 +102,11 @@ func c08Alphabet() []sym {
 		// a complete request whose header list is malformed (a connection-specific field): a stream error that uses the id up
 		sym{K: 'M', ID: idA, ES: true, EH: true},
 		sym{K: 'R', ID: idLow}, sym{K: 'W', ID: idLow, W: 1}, sym{K: 'D', ID: idLow, ES: true},
+		// a HEADERS frame whose priority section names its own stream (5.3.1: a stream error); as a request and, on an open stream, as trailers
+		sym{K: 'H', ID: idA, ES: true, EH: true, Self: true},
+		// SETTINGS_INITIAL_WINDOW_SIZE raised: the difference is added to every stream window, and a window it takes above 2^31-1 is a
+		// connection error FLOW_CONTROL_ERROR (6.9.2)
+		sym{K: 'i', W: 1}, sym{K: 'i', W: 2},
 	)
 	return a
 }
@@ -125,6 +135,7 @@ type mStream struct {
 }
 
 type model struct {
+	initWin  int64 // the peer's SETTINGS_INITIAL_WINDOW_SIZE as last sent (0 = never sent: 65535)
 	s        map[uint32]*mStream
 	highest  uint32
 	inBlock  uint32 // stream whose header block is open
@@ -152,7 +163,7 @@ const (
 func (m *model) get(id uint32) *mStream {
 	st := m.s[id]
 	if st == nil {
-		st = &mStream{win: 65535}
+		st = &mStream{win: m.initial()}
 		m.s[id] = st
 	}
 	if st.st == stIdle && id < m.highest && id%2 == 1 {
@@ -160,6 +171,20 @@ func (m *model) get(id uint32) *mStream {
 		st.st, st.how = stClosed, byNone
 	}
 	return st
+}
+
+func (m *model) initial() int64 {
+	if m.initWin == 0 {
+		return 65535
+	}
+	return m.initWin
+}
+
+func iwsValue(f sym) int64 {
+	if f.W == 2 {
+		return 1<<31 - 1
+	}
+	return 66535
 }
 
 func stName(st *mStream) string {
@@ -195,6 +220,28 @@ func (m *model) step(f sym) expect {
 	switch f.K {
 	case 'p', 's', 'w', 'u':
 		return none("connection-level frame", "conn/"+string(f.K))
+	case 'i':
+		delta := iwsValue(f) - m.initial()
+		live, gone := false, false
+		for _, st := range m.s {
+			if st.win+delta <= 1<<31-1 {
+				continue
+			}
+			switch {
+			case st.st == stOpen || st.st == stHCR:
+				live = true
+			case st.st == stClosed && st.dispatched && m.parked:
+				gone = true // closed for the peer, but its handler still runs: the server may or may not still keep a window for it
+			}
+		}
+		key := fmt.Sprintf("conn/i[%s]", []string{"", "+", "max"}[f.W])
+		switch {
+		case live:
+			return cErr("SETTINGS_INITIAL_WINDOW_SIZE takes a stream window above 2^31-1 (6.9.2)", key+"[overflow]", cFlowControl)
+		case gone:
+			return expect{None: true, C: []uint32{cFlowControl}, Why: "the overflowing window belongs to a stream that is closed but whose handler still runs", Key: key + "[overflow-closed]"}
+		}
+		return none("SETTINGS_INITIAL_WINDOW_SIZE change within bounds", key)
 	case 'C':
 		if m.inBlock == 0 {
 			return cErr("CONTINUATION without an open header block (6.10)", "noblock/C", cProtocol)
@@ -236,6 +283,22 @@ func (m *model) step(f sym) expect {
 		g.K = 'H'
 		return m.step(g)
 	case 'H':
+		if f.Self {
+			g := f
+			g.Self = false
+			e := m.step(g)
+			if e.None || e.Dispatch != 0 {
+				if st.st == stClosed {
+					// ignored anyway (frame in flight for a stream the server reset): a stream error has nothing to reset
+					e.S, e.Key, e.Why = append(e.S, cProtocol), e.Key+"[self]", e.Why+"; its priority section names the stream itself"
+					return e
+				}
+				return sErr(cProtocol, "HEADERS whose priority section makes the stream depend on itself (5.3.1)", key+"[self]")
+			}
+			// already an error for its state: that code or PROTOCOL_ERROR
+			e.S, e.C, e.Key = append(e.S, cProtocol), append(e.C, cProtocol), e.Key+"[self]"
+			return e
+		}
 		switch st.st {
 		case stIdle:
 			if f.EH && f.ES {
@@ -334,9 +397,9 @@ func (m *model) incr(f sym, st *mStream) int64 {
 	case 1:
 		return 1000
 	case 2:
-		return 1<<31 - 1 - st.win
+		return min(1<<31-1-st.win, 1<<31-1)
 	case 3:
-		return 1<<31 - st.win
+		return min(1<<31-st.win, 1<<31-1)
 	}
 	return 0
 }
@@ -344,6 +407,16 @@ func (m *model) incr(f sym, st *mStream) int64 {
 // commit updates the model after the observed reaction (obsS: server reset the frame's stream; dispatched etc.).
 func (m *model) commit(f sym, e expect, serverReset bool) {
 	if f.K == 'p' || f.K == 's' || f.K == 'w' || f.K == 'u' {
+		return
+	}
+	if f.K == 'i' {
+		if e.None && !serverReset {
+			delta := iwsValue(f) - m.initial()
+			for _, st := range m.s {
+				st.win += delta
+			}
+			m.initWin = iwsValue(f)
+		}
 		return
 	}
 	if f.ID%2 == 0 {
@@ -441,6 +514,8 @@ func (g *c08Gen) bytesFor(p *rt.Peer, m *model, f sym, caseID string, seq int) [
 		return rt.Ping(false, "c08ping!")
 	case 's':
 		return rt.SettingsFrame()
+	case 'i':
+		return rt.SettingsFrame(wire.Setting{ID: 4, Val: uint32(iwsValue(f))})
 	case 'w':
 		return rt.WindowUpdate(0, 1000)
 	case 'u':
@@ -461,7 +536,7 @@ func (g *c08Gen) bytesFor(p *rt.Peer, m *model, f sym, caseID string, seq int) [
 	case 'W':
 		var inc int64
 		st := m.s[f.ID]
-		win := int64(65535)
+		win := m.initial()
 		if st != nil {
 			win = st.win
 		}
@@ -516,6 +591,10 @@ func (g *c08Gen) bytesFor(p *rt.Peer, m *model, f sym, caseID string, seq int) [
 			}
 			frag = blk[:cut]
 			g.remaining[f.ID] = blk[cut:]
+		}
+		if f.Self {
+			fl |= wire.FPriority
+			frag = append(wire.PriorityFields(f.ID, false, 10), frag...)
 		}
 		return wire.Frame(nil, wire.THeaders, fl, f.ID, frag, -1)
 	case 'C':
@@ -790,6 +869,29 @@ func TestC08(t *testing.T) {
 		r.Exhaustive(fmt.Sprintf("all frame sequences of length<=3 over the %d-symbol alphabet, x {handlers immediate, parked}", len(alpha)))
 	} else {
 		r.Exhaustive(fmt.Sprintf("all frame sequences of length<=2 over the %d-symbol alphabet, x {handlers immediate, parked}", len(alpha)))
+	}
+	// directed sequences of length 3 and 4 (both tiers): the symbols whose interesting reactions need a prepared state —
+	// a stream window raised by WINDOW_UPDATE and then by SETTINGS_INITIAL_WINDOW_SIZE, in either order, on a stream that is
+	// open, half-closed (remote) or already closed
+	opening := [][]sym{
+		{{K: 'H', ID: idA, ES: true, EH: true}},
+		{{K: 'H', ID: idA, ES: false, EH: true}},
+		{{K: 'H', ID: idA, ES: true, EH: true}, {K: 'H', ID: idB, ES: false, EH: true}},
+		{{K: 'H', ID: idA, ES: false, EH: true}, {K: 'R', ID: idA}},
+	}
+	iws := []sym{{K: 'i', W: 1}, {K: 'i', W: 2}}
+	for _, op := range opening {
+		for _, id := range []uint32{idA, idB} {
+			for w := 1; w <= 2; w++ {
+				for _, i1 := range iws {
+					run(append(append([]sym{}, op...), sym{K: 'W', ID: id, W: w}, i1))
+					run(append(append([]sym{}, op...), i1, sym{K: 'W', ID: id, W: w}))
+					for _, i2 := range iws {
+						run(append(append([]sym{}, op...), i1, sym{K: 'W', ID: id, W: w}, i2))
+					}
+				}
+			}
+		}
 	}
 	// PRNG longer sequences, biased towards legal prefixes
 	n := r.Pick(6000, 400000)
